@@ -39,7 +39,7 @@ FitsInt64(a) == IF a.n THEN Cmp(a.c, TwoP63) <= 0 ELSE Cmp(a.c, TwoP63) < 0
 FitsUint64(a) == ~a.n /\ Cmp(a.c, TwoP64) < 0
 
 Modifying == {"Add", "Sub", "Mul", "Quo", "Rem", "Div", "Mod", "And", "Or", "Xor", "AndNot", "GCD", "Neg", "Abs", "Set", "Not",
-              "Sqrt", "Lsh", "Rsh", "SetBit0", "SetBit1", "Exp", "QuoRem", "DivMod", "SetInt64", "SetUint64", "SetString",
+              "Sqrt", "Lsh", "Rsh", "SetBit0", "SetBit1", "Exp", "ExpMod", "QuoRem", "DivMod", "SetInt64", "SetUint64", "SetString",
               "SetBytes", "MulRange", "Binomial", "SetBitsOf", "ModInverse", "GobRoundTrip", "UnmarshalText", "UnmarshalJSON", "Sscan"}
 DivLike == {"Quo", "Rem", "Div", "Mod", "QuoRem", "DivMod"}
 \* the defined result of the receiver for the arithmetic core, or "none"
